@@ -458,8 +458,16 @@ static void emitCall(const CallBase *ci) {
     if (n.startswith("llvm.umul.with.overflow") || n.startswith("llvm.uadd.with.overflow") || n.startswith("llvm.usub.with.overflow")) {
       auto *st = cast<StructType>(rt); unsigned ew = st->getElementType(0)->getIntegerBitWidth();
       string tn = F->names[ci];
-      const char *bi = n.startswith("llvm.umul") ? "__builtin_mul_overflow" : n.startswith("llvm.uadd") ? "__builtin_add_overflow" : "__builtin_sub_overflow";
-      b << "  { " << uintTy(ew) << " r_; " << tn << ".f1 = (uint8_t)" << bi << "(" << arg(0) << ", " << arg(1) << ", &r_); " << tn << ".f0 = r_; }\n";
+      // plain arithmetic instead of __builtin_*_overflow: cbmc does not fold the builtin's result to a constant, and these results size allocations
+      string a0 = arg(0), a1 = arg(1);
+      if (n.startswith("llvm.umul")) {
+        if (ew <= 32) b << "  { uint64_t p_ = (uint64_t)" << a0 << " * (uint64_t)" << a1 << "; " << tn << ".f0 = (" << uintTy(ew) << ")p_; " << tn << ".f1 = (uint8_t)((p_ >> " << ew << ") != 0); }\n";
+        else b << "  { unsigned __int128 p_ = (unsigned __int128)" << a0 << " * (unsigned __int128)" << a1 << "; " << tn << ".f0 = (uint64_t)p_; " << tn << ".f1 = (uint8_t)((p_ >> 64) != 0); }\n";
+      } else if (n.startswith("llvm.uadd")) {
+        b << "  { " << uintTy(ew) << " r_ = (" << uintTy(ew) << ")(" << a0 << " + " << a1 << "); " << tn << ".f0 = r_; " << tn << ".f1 = (uint8_t)(r_ < " << a0 << "); }\n";
+      } else {
+        b << "  { " << tn << ".f0 = (" << uintTy(ew) << ")(" << a0 << " - " << a1 << "); " << tn << ".f1 = (uint8_t)(" << a0 << " < " << a1 << "); }\n";
+      }
       return;
     }
     if (n.startswith("llvm.trap")) { b << "  abort();\n"; return; }
